@@ -69,6 +69,54 @@ Proof.
   apply ghost_robin_lo; assumption.
 Qed.
 
+(* the plot profile reports, at a boundary face, the face average; with the stored boundary values it therefore satisfies the configured
+   relation, and for Dirichlet data (a = 0) it IS the boundary value c / b *)
+Theorem profile_robin_hi (m : Mesh) (bc : BCs F) (phi : cvar F) a g :
+  ghost_axis F m g = Some (a, true) -> interior F m g = false -> interior F m (cdn a g) = true ->
+  bper F bc a = false -> aoh F m bc a true g + bcb F bc a true g / two <> 0 ->
+  let X := with_boundaries F m bc phi in
+  aoh F m bc a true g * (X g - X (cdn a g)) + bcb F bc a true g * plot_profile F m X g = bcc F bc a true g.
+Proof.
+  intros Hg Hi Hn Hp Hd X. pose proof (stored_values_robin_hi m bc phi a g Hg Hi Hn Hp Hd) as R.
+  unfold robin_hi in R. unfold plot_profile. rewrite Hi, Hg. exact R.
+Qed.
+Theorem profile_robin_lo (m : Mesh) (bc : BCs F) (phi : cvar F) a g :
+  ghost_axis F m g = Some (a, false) -> interior F m g = false -> interior F m (cup a g) = true ->
+  bper F bc a = false -> - aoh F m bc a false g + bcb F bc a false g / two <> 0 ->
+  let X := with_boundaries F m bc phi in
+  aoh F m bc a false g * (X (cup a g) - X g) + bcb F bc a false g * plot_profile F m X g = bcc F bc a false g.
+Proof.
+  intros Hg Hi Hn Hp Hd X. pose proof (stored_values_robin_lo m bc phi a g Hg Hi Hn Hp Hd) as R.
+  unfold robin_lo in R. unfold plot_profile. rewrite Hi, Hg.
+  replace ((X g + X (cup a g)) / two) with ((X (cup a g) + X g) / two) by (field; apply (two_neq_0 F L)). exact R.
+Qed.
+Theorem profile_dirichlet_hi (m : Mesh) (bc : BCs F) (phi : cvar F) a g :
+  ghost_axis F m g = Some (a, true) -> interior F m g = false -> interior F m (cdn a g) = true ->
+  bper F bc a = false -> aoh F m bc a true g = 0 -> bcb F bc a true g <> 0 ->
+  plot_profile F m (with_boundaries F m bc phi) g = bcc F bc a true g / bcb F bc a true g.
+Proof.
+  intros Hg Hi Hn Hp Ha Hb. pose proof (two_neq_0 F L) as H2.
+  assert (Hd : aoh F m bc a true g + bcb F bc a true g / two <> 0).
+  { rewrite Ha. intro E. apply Hb. transitivity ((0 + bcb F bc a true g / two) * two); [field; exact H2|]. rewrite E. ring. }
+  pose proof (profile_robin_hi m bc phi a g Hg Hi Hn Hp Hd) as R. cbv zeta in R. rewrite Ha in R.
+  set (P := plot_profile F m (with_boundaries F m bc phi) g) in *.
+  transitivity ((0 * (with_boundaries F m bc phi g - with_boundaries F m bc phi (cdn a g)) + bcb F bc a true g * P) / bcb F bc a true g);
+    [field; exact Hb|]. rewrite R. reflexivity.
+Qed.
+Theorem profile_dirichlet_lo (m : Mesh) (bc : BCs F) (phi : cvar F) a g :
+  ghost_axis F m g = Some (a, false) -> interior F m g = false -> interior F m (cup a g) = true ->
+  bper F bc a = false -> aoh F m bc a false g = 0 -> bcb F bc a false g <> 0 ->
+  plot_profile F m (with_boundaries F m bc phi) g = bcc F bc a false g / bcb F bc a false g.
+Proof.
+  intros Hg Hi Hn Hp Ha Hb. pose proof (two_neq_0 F L) as H2.
+  assert (Hd : - aoh F m bc a false g + bcb F bc a false g / two <> 0).
+  { rewrite Ha. intro E. apply Hb. transitivity ((- 0 + bcb F bc a false g / two) * two); [field; exact H2|]. rewrite E. ring. }
+  pose proof (profile_robin_lo m bc phi a g Hg Hi Hn Hp Hd) as R. cbv zeta in R. rewrite Ha in R.
+  set (P := plot_profile F m (with_boundaries F m bc phi) g) in *.
+  transitivity ((0 * (with_boundaries F m bc phi (cup a g) - with_boundaries F m bc phi g) + bcb F bc a false g * P) / bcb F bc a false g);
+    [field; exact Hb|]. rewrite R. reflexivity.
+Qed.
+
 (* the two entries of a (non-periodic) boundary row applied to (ghost, inner) give the same relation *)
 Theorem row_is_robin_hi (m : Mesh) (bc : BCs F) (x : cvar F) a g :
   (bcb F bc a true g / two + aoh F m bc a true g) * x g + (bcb F bc a true g / two - aoh F m bc a true g) * x (cdn a g)
